@@ -13,7 +13,7 @@ From Crusta Require Import Proofs.ProgLaws Proofs.EncSpec Proofs.EncBase Proofs.
   Proofs.SolverBasics Proofs.SolverCc Proofs.SolverThms Proofs.CallBounds Proofs.SolverWhole.
 From Crusta Require Import Proofs.MaxExtCore Proofs.MaxExtPref Proofs.MaxExtIdeal Proofs.MaxExtRange.
 From Crusta Require Import Proofs.TopBase Proofs.TopMax.
-From Crusta Require Proofs.GroundedProofs.
+From Crusta Require Proofs.GroundedProofs Proofs.SolverWholeEx.
 From Coq Require Import ZifyBool.
 Import ListNotations.
 Open Scope prog_scope.
@@ -41,13 +41,12 @@ Definition outcome_spec (s : sem) (q : query) (cert : bool) (F : af) (al : list 
 
 (* premises on the listed arguments: none for single-extension queries and for GR / ST (unknown
    ids are ignored there); otherwise they must be arguments of F (the library panics on unknown
-   ids); the complete solver is covered for non-empty lists *)
+   ids).  The list may be empty and may contain repetitions. *)
 Definition al_ok (s : sem) (q : query) (F : af) (al : list nat) : Prop :=
   match q with
   | QSE => True
   | _ => match s with
          | GR | ST => True
-         | CO => al <> [] /\ forall a, In a al -> In a (args F)
          | _ => forall a, In a al -> In a (args F)
          end
   end.
@@ -155,6 +154,31 @@ Let Hgr_cc : forall ccs c, decomp_ok F ccs -> In c ccs -> gr (c_af c) (grounded 
 Let Hgr_cc_nd : forall ccs c, decomp_ok F ccs -> In c ccs -> NoDup (grounded (view_of_af (c_af c))) :=
   fun ccs c Hok Hc => proj2 (comp_gr F ccs c Hok Hc).
 
+(** * The theorems of Proofs/SolverWhole.v with their graph hypotheses discharged *)
+Corollary run_query_se_good : forall fuel s cert e al, s = GR \/ s = ST ->
+  on_done (run_query oracle thr fuel s QSE cert e g al) (se_outcome s F).
+Proof. exact (run_query_se_whole oracle thr Hthr Hvalid F g Hcc Hgr). Qed.
+
+Corollary run_query_dc_good : forall fuel s cert e al,
+  s = GR \/ s = ST \/
+  (s = CO /\ enc_base e = BCo /\ al <> [] /\ forall a, In a al -> In a (args F)) ->
+  on_done (run_query oracle thr fuel s QDC cert e g al) (dc_outcome s F al cert).
+Proof. exact (run_query_dc_whole oracle thr Hthr Hvalid F g Hwf Hcc Hmerged Hgr Hgr_cc). Qed.
+
+Corollary run_query_ds_good : forall fuel s cert e al, s = GR \/ s = ST ->
+  on_done (run_query oracle thr fuel s QDS cert e g al) (ds_outcome s F al cert).
+Proof. exact (run_query_ds_whole oracle thr Hthr Hvalid F g Hwf Hcc Hgr). Qed.
+
+Corollary run_query_cert_nodup_good : forall fuel s q cert e al,
+  q = QDC \/ q = QDS ->
+  s = GR \/ s = ST \/
+  (s = CO /\ q = QDC /\ enc_base e = BCo /\ al <> [] /\ forall a, In a al -> In a (args F)) ->
+  on_done (run_query oracle thr fuel s q cert e g al)
+    (fun o => match o with OAcc _ (Some L) => NoDup L | _ => True end).
+Proof.
+  exact (run_query_cert_nodup oracle thr Hthr Hvalid F g Hwf Hcc Hmerged Hgr Hgr_cc Hgr_cc_nd).
+Qed.
+
 (** * GR *)
 Theorem gr_se_top : se_spec GR F (Some (gr_se g)).
 Proof. exact (gr_se_whole F g Hgr). Qed.
@@ -234,7 +258,6 @@ Section Complete.
 Variable e : enc.
 Variable al : list nat.
 Hypothesis He : enc_base e = BCo.
-Hypothesis Hne : al <> [].
 Hypothesis Hal : forall a, In a al -> In a (args F).
 
 Lemma co_dc_safe : forall fuel s,
@@ -269,12 +292,55 @@ Proof.
   - rewrite wp_ret. split; [exact I|lia].
 Qed.
 
+(* the functional part, for every list of arguments of F (also the empty one) *)
+Lemma co_dc_fun : on_done (co_dc oracle thr e g al) (fun b => b = true <-> cred CO F al).
+Proof.
+  destruct (vg_merged g F al Hvg Hal) as [s0 [c [la [rest [Hm [Hl [Hmap [Hlt [Hrem Hok]]]]]]]]].
+  pose proof (comp_compact F (c :: rest) Hok c (or_introl eq_refl)) as HF.
+  apply wpT_on_done. intros s. unfold co_dc, merged_m, locals_m.
+  rewrite wp_bind, wp_new_solver, Hm, wp_bind, wp_ret. cbv zeta. cbn [snd]. rewrite Hl.
+  rewrite wp_bind_assoc, wp_bind.
+  eapply wp_mono;
+    [|apply (cred_query_spec oracle thr Hthr Hvalid e (c_af c) (length (c_ids c)) HF la Hlt true
+               (st_new s)); [apply cls_new|apply sb_new]].
+  intros r s'' Hr. rewrite wp_ret. rewrite He in Hr. cbn [basep] in Hr.
+  rewrite <- Hmap, (co_merged_local F c rest la Hok Hlt).
+  destruct r as [m|].
+  - split; [intros _|reflexivity]. destruct Hr as [H1 H2]. apply meets_spec in H2.
+    destruct H2 as [a [Ha HaS]]. exists (assignment_to_extension (length (c_ids c)) e m).
+    split; [exact H1|exists a; split; assumption].
+  - split; [discriminate|]. intros [S [HS [a [Ha HaS]]]]. specialize (Hr S HS).
+    pose proof (proj1 (meets_false la S) Hr a Ha). contradiction.
+Qed.
+
+Lemma co_dc_cert_fun : on_done (co_dc_cert oracle thr e g al) (acc_spec CO true true F al).
+Proof.
+  destruct (vg_merged g F al Hvg Hal) as [s0 [c [la [rest [Hm [Hl [Hmap [Hlt [Hrem Hok]]]]]]]]].
+  pose proof (comp_compact F (c :: rest) Hok c (or_introl eq_refl)) as HF.
+  pose proof (co_merged_local F c rest la Hok Hlt) as Hloc. rewrite Hmap in Hloc.
+  intros s. pose proof (co_dc_cert_shape oracle thr Hthr Hvalid g e al s0 c rest la He Hm Hrem Hl HF Hlt s) as H.
+  destruct (co_dc_cert oracle thr e g al s) as [[[|] [L|]] s'| | |]; try exact I; try contradiction;
+    unfold acc_spec; cbn [fst snd negb].
+  - destruct H as [X [-> [H1 [H2 H3]]]].
+    assert (Hrest : Forall2 (fun c' S => ext CO (c_af c') S /\ NoDup S) rest
+                      (map (fun oc => grounded (view_of_af (c_af oc))) rest)).
+    { apply Forall2_map_same. intros oc Hoc. assert (Hoc' : In oc (c :: rest)) by now right.
+      split; [exact (comp_gr_co F (c :: rest) oc Hok Hoc')|exact (proj2 (comp_gr F (c :: rest) oc Hok Hoc'))]. }
+    destruct (glue_cert F c rest Hok CO X _ H1 H2 Hrest) as [HL [Hnd [Hincl Hiff]]].
+    cbn [glue]. specialize (Hiff la Hlt). rewrite Hmap in Hiff. apply Hiff in H3.
+    split; [split; [intros _|reflexivity]; eexists; split; [exact HL|exact H3]|].
+    repeat (split; [assumption||reflexivity|]). exact H3.
+  - split; [|reflexivity]. split; [discriminate|]. rewrite Hloc.
+    intros [S [HS [a [Ha HaS]]]]. specialize (H S HS).
+    pose proof (proj1 (meets_false la S) H a Ha). contradiction.
+Qed.
+
 Theorem co_dc_top : forall fuel s,
   run_ok (co_dc oracle thr e g al s) (calls s) (total_bound CO e (merged_comps g al))
          (fuel_ok CO e (merged_comps g al) fuel) (fun b => acc_spec CO true false F al (b, None)).
 Proof.
   intros fuel s. apply run_ok_on_done; [exact (co_dc_safe fuel s)|].
-  intros s0. pose proof (co_dc_whole oracle thr Hthr Hvalid F g Hmerged e al He Hne Hal s0) as H.
+  intros s0. pose proof (co_dc_fun s0) as H.
   destruct (co_dc oracle thr e g al s0) as [b s1| | |]; try exact I.
   unfold acc_spec. cbn [fst snd]. split; [exact H|discriminate].
 Qed.
@@ -282,17 +348,7 @@ Qed.
 Theorem co_dc_cert_top : forall fuel s,
   run_ok (co_dc_cert oracle thr e g al s) (calls s) (total_bound CO e (merged_comps g al))
          (fuel_ok CO e (merged_comps g al) fuel) (acc_spec CO true true F al).
-Proof.
-  intros fuel s. apply run_ok_on_done; [exact (co_dc_cert_safe fuel s)|].
-  intros s0.
-  pose proof (co_dc_cert_whole oracle thr Hthr Hvalid F g Hmerged Hgr_cc e al He Hne Hal s0) as H.
-  pose proof (co_dc_cert_nodup oracle thr Hthr Hvalid F g Hmerged Hgr_cc Hgr_cc_nd e al He Hne Hal s0) as Hn.
-  destruct (co_dc_cert oracle thr e g al s0) as [[[|] [L|]] s1| | |]; try exact I; try contradiction;
-    unfold acc_spec; cbn [fst snd negb] in *.
-  - destruct H as [H1 [H2 [H3 H4]]]. destruct Hn as [Hn _]. split; [tauto|].
-    repeat (split; [assumption||reflexivity|]). exact H3.
-  - split; [split; [discriminate|intros Hc; destruct (H Hc)]|reflexivity].
-Qed.
+Proof. intros fuel s. apply run_ok_on_done; [exact (co_dc_cert_safe fuel s)|exact co_dc_cert_fun]. Qed.
 End Complete.
 
 (* ------------------------------------------------------------------------------------------ *)
@@ -355,9 +411,9 @@ Proof.
     destruct cert; [apply wrap_acc|apply wrap_nocert]; try discriminate;
       apply run_ok_pure; exact (gr_ds_top al).
   - (* CO DC *)
-    destruct Hal as [Hne Hal]. destruct cert.
-    + apply wrap_acc; [discriminate|]. exact (co_dc_cert_top e al He Hne Hal fuel st0).
-    + apply wrap_accb; [discriminate|]. exact (co_dc_top e al He Hne Hal fuel st0).
+    destruct cert.
+    + apply wrap_acc; [discriminate|]. exact (co_dc_cert_top e al He Hal fuel st0).
+    + apply wrap_accb; [discriminate|]. exact (co_dc_top e al He Hal fuel st0).
   - (* PR SE *) apply wrap_se. exact (pr_se_top oracle thr Hthr Hvalid F g Hvg fuel e st0 He).
   - (* PR DS *)
     destruct cert.
@@ -611,6 +667,55 @@ Proof.
   - intros a [<-|[<-|[]]]; cbn; tauto.
 Qed.
 
+(* stores: every framework reachable from [new_with_labels] by any update history *)
+Corollary run_query_store : forall L (leqb : L -> L -> bool),
+  (forall x y, leqb x y = true <-> x = y) ->
+  forall f : fw L, GroundedProofs.reachable L leqb f ->
+  forall oracle thr s q e al fuel cert st0,
+  valid_oracle oracle -> 1 <= thr -> supported s q -> enc_ok s e ->
+  al_ok s q (GroundedProofs.af_of L f) al ->
+  run_ok (run_query oracle thr fuel s q cert e (view_of_fw f) al st0) (calls st0)
+         (total_bound s e (query_comps s q cert (view_of_fw f) al))
+         (fuel_ok s e (query_comps s q cert (view_of_fw f) al) fuel)
+         (outcome_spec s q cert (GroundedProofs.af_of L f) al).
+Proof.
+  intros L leqb Hl f Hr oracle thr s q e al fuel cert st0 Hv Ht Hs He Ha.
+  apply run_query_top. pose proof (view_good_store L leqb Hl f Hr) as Hg. unfold query_ok. tauto.
+Qed.
+
+(* a completed run, through the theorems: 0 <-> 1 -> 2, 3 -> 3 -> 4 (two components), DS-PR with
+   certificate of the list [2; 4] with a brute-force oracle *)
+Definition ex_F : af := compact 5 [(0, 1); (1, 0); (1, 2); (3, 3); (3, 4)].
+
+Lemma ex_query_ok : forall s q e al, supported s q -> enc_ok s e -> al_ok s q ex_F al ->
+  query_ok SolverWholeEx.bf_oracle 1 (view_of_af ex_F) ex_F s q e al.
+Proof.
+  intros s q e al Hs He Ha. split; [exact SolverWholeEx.bf_oracle_valid|]. split; [lia|].
+  split; [|tauto]. apply (view_good_compact _ 5). split; [reflexivity|].
+  intros a b [E|[E|[E|[E|[E|[]]]]]]; injection E as <- <-; lia.
+Qed.
+
+Example run_example :
+  match run_query SolverWholeEx.bf_oracle 1 100 PR QDS true AuxCo (view_of_af ex_F) [2; 4]
+                  (init_st CadicalLike) with
+  | Done (OAcc b (Some L)) t =>
+      b = false /\ L = [1] /\ pr ex_F L /\ ~ skep PR ex_F [2; 4] /\
+      calls t <= total_bound PR AuxCo (query_comps PR QDS true (view_of_af ex_F) [2; 4])
+  | _ => False
+  end.
+Proof.
+  assert (Hq : query_ok SolverWholeEx.bf_oracle 1 (view_of_af ex_F) ex_F PR QDS AuxCo [2; 4]).
+  { apply ex_query_ok; [exact I|now left|]. intros a [<-|[<-|[]]]; cbn; tauto. }
+  pose proof (certificates _ _ _ _ _ _ _ _ 100 true (init_st CadicalLike) Hq ltac:(discriminate)) as H1.
+  pose proof (skeptical _ _ _ _ _ _ _ 100 true (init_st CadicalLike) Hq) as H2.
+  pose proof (call_bound _ _ _ _ _ _ _ _ 100 true (init_st CadicalLike) Hq) as H3.
+  remember (run_query SolverWholeEx.bf_oracle 1 100 PR QDS true AuxCo (view_of_af ex_F) [2; 4]
+              (init_st CadicalLike)) as r eqn:E.
+  vm_compute in E. subst r. cbn [qpol negb] in H1.
+  destruct H1 as [_ [Hb [Hpr _]]]. split; [exact Hb|]. split; [reflexivity|]. split; [exact Hpr|].
+  split; [|exact H3]. intros Hsk. apply H2 in Hsk. discriminate.
+Qed.
+
 Print Assumptions query_comps_decomp.
 Print Assumptions run_query_correct.
 Print Assumptions run_query_top.
@@ -623,3 +728,5 @@ Print Assumptions call_bound.
 Print Assumptions terminates.
 Print Assumptions terminates_per_component.
 Print Assumptions status_function_of_semantics.
+Print Assumptions run_query_store.
+Print Assumptions run_example.
